@@ -106,6 +106,48 @@ func relativeSp(e ext) ext {
 	}
 }
 
+// collidingPairs: list 1 = [A, A'] where A' is A with one more decimal digit d at the end of f; list 2 = [B', B] where B is an
+// ancestor of A' at a one-digit horizontal zoom H and B' is B at zoom 10d+H: the texts A+B' and A'+B coincide although the
+// pairs differ, and normally only (A', B) overlaps.  Sometimes the lists are reversed or padded with unrelated IDs.
+func collidingPairs() ([]ext, []ext, bool) {
+	d := int64(1 + rng.Intn(3))
+	H := int64(1 + rng.Intn(5))
+	if 10*d+H > 35 {
+		H = 35 - 10*d
+	}
+	h := H + int64(rng.Intn(8))
+	v := int64(5 + rng.Intn(12))
+	q := int64(1 + rng.Intn(int(pow2(v)/10-1)))
+	if q*10+d >= pow2(v) {
+		return nil, nil, false
+	}
+	if rng.Intn(3) == 0 {
+		q = -q
+		d = -d
+	}
+	a2 := ext{h, rng.Int63n(pow2(h)), rng.Int63n(pow2(h)), v, q*10 + d}
+	a1 := a2
+	a1.f = q
+	dv := int64(rng.Intn(3))
+	b := ext{H, a2.x >> uint(h-H), a2.y >> uint(h-H), v - dv, a2.f >> uint(dv)}
+	b2 := b
+	if d < 0 {
+		d = -d
+	}
+	b2.h = 10*d + H
+	la, lb := []ext{a1, a2}, []ext{b2, b}
+	if rng.Intn(3) == 0 {
+		la = append([]ext{randExt()}, la...)
+	}
+	if rng.Intn(3) == 0 {
+		lb = append(lb, randExt())
+	}
+	if rng.Intn(4) == 0 {
+		la[0], la[len(la)-1] = la[len(la)-1], la[0]
+	}
+	return la, lb, true
+}
+
 func init() {
 	op("ovE", func(a []string) string { return boolOrErr(detector.CheckExtendedSpatialIdsOverlap(a[0], a[1])) })
 	op("ovEA", func(a []string) string {
@@ -148,6 +190,11 @@ func init() {
 					} else {
 						lb = append(lb, randExt())
 					}
+				}
+			}
+			if rng.Intn(8) == 0 { // pair-text collision: A+B' and A'+B are the same digit string, only (A',B) overlaps
+				if ca, cb, ok := collidingPairs(); ok {
+					la, lb = ca, cb
 				}
 			}
 			sa, sb := maybeCorrupt(ids(la), 0.05), maybeCorrupt(ids(lb), 0.05)
